@@ -23,7 +23,19 @@ TRUSTED_BASE = [
     "NumPy's own x.todense()[index] on every generated in-grammar case (verdict kind 9)",
     "searchsorted modelled as plain bisection (Model/CooIndex.v bisect), validated through the kernel-level "
     "correspondence of _get_mask_pairs / get_array_selection only",
+    "Model/GcxsGetitem.v (the GCXS getitem wrapper) and Model/DokGetitem.v (DOK.__getitem__): hand transcriptions, tied by "
+    "EXACT API-level correspondence (data/indices/indptr/compressed axes; dict items) on every generated case, also on "
+    "the out-of-domain cases for DOK/COO; convert_to_flat's odometer loop is abstracted to its row-major list meaning "
+    "(flat_sums) and tied at kernel level",
+    "agent c05's Model/Convert.v + Proofs/Convert{L,M,G,P}.v (COO constructor, COO.from_iter, DOK.from_coo, gcxs_from_coo, "
+    "gcxs_tocoo) imported read-only by the GCXS-1-d and DOK wrapper models/theorems",
     "correspondence harness tools/props/c02.py, tools/props/c02_index.py, tools/vlib.py",
+]
+UNPROVED = [
+    "gcxs_getitem_den / gcxs_getitem_wf for ndim >= 2 (Model/GcxsGetitem.v:gcxs_getitem_nd): the wrapper is modelled and tied "
+    "by exact correspondence; proved so far: the kernels (gcxs_selection_spec), the CSR-from-sorted-keys lemmas and the "
+    "convert_to_flat enumeration lemmas of Proofs/GcxsGetitemP.v; not yet the theorem g[ix] = from_coo(c[ix])",
+    "the scalar-vs-0-d rule for indices with arrays (never scalar on either side) is not stated separately",
 ]
 ASSUMPTIONS = ["element values are opaque; dtype handling is not modelled"]
 
@@ -147,6 +159,7 @@ def campaign(build, tier, seed, report, budget=1):
     cov["skipped_inputs"] = ic.get("skipped_inputs", {})
     cov["index_classes"] = ic.get("classes", 0)
     cov["outside_grammar_dropped"] = ic.get("outside_grammar_dropped", 0)
+    cov["unproved_statements"] = UNPROVED
     return viol
 
 
